@@ -34,3 +34,29 @@ def mixed_tab_space_indent(text: str | None, case: Any) -> bool:
         return False
     lead = re.findall(r"(?m)^[ \t\f]+", text)
     return any("\t" in w for w in lead) and any(" " in w for w in lead)
+
+
+def construct_inside_binding_target(text: str | None, case: Any) -> bool:
+    """C05 case whose construct sits (in Load position) inside a for / with-as / comprehension target."""
+    import ast
+
+    if not isinstance(case, dict) or "py" not in case or not case.get("pyspan"):
+        return False
+    py, (a, _b) = case["py"], case["pyspan"]
+    line = py.count("\n", 0, a) + 1
+    col = a - (py.rfind("\n", 0, a) + 1)
+    try:
+        tree = ast.parse(py)
+    except SyntaxError:
+        return False
+    for node in ast.walk(tree):
+        tg = []
+        if isinstance(node, (ast.For, ast.AsyncFor, ast.comprehension)):
+            tg = [node.target]
+        elif isinstance(node, ast.withitem) and node.optional_vars is not None:
+            tg = [node.optional_vars]
+        for t in tg:
+            for sub in ast.walk(t):
+                if getattr(sub, "lineno", None) == line and getattr(sub, "col_offset", None) == col and isinstance(getattr(sub, "ctx", None), ast.Load):
+                    return True
+    return False
